@@ -13,6 +13,7 @@
 (*   "pin"      king x own piece of each kind x enemy slider on a line      *)
 (*   "dblchk"   two checkers of every kind pair                            *)
 (*   "promo"    pawn on the 7th x contents of the 8th x checks             *)
+(*   "promopin" pawn on the 7th pinned on a diagonal / file / rank         *)
 (*   "kingwalk" king next to one or two enemy sliders                      *)
 (*   "evade"    single check x interpose / capture by each kind            *)
 (* SHARD / NSHARDS split a family on its first enumeration variable.       *)
@@ -47,6 +48,8 @@ Emit(pl, castle, ep, tag) ==
 InShard(x) == x % NSHARDS = SHARD
 \* thinning for the quick tier: keep 1 of DENSITY by a fixed arithmetic hash of two coordinates
 Keep(a, b) == DENSITY = 1 \/ (a * 7 + b * 13) % DENSITY = 0
+\* thinning for slider placements: always keep sliders on a line through the king
+KeepLine(k, s) == DENSITY = 1 \/ s \in QueenAttacks(k, {}) \/ (k * 7 + s * 13) % DENSITY = 0
 
 W(k) == PieceOf(0, k)
 Bl(k) == PieceOf(1, k)
@@ -66,11 +69,11 @@ FamEp ==
                  bp == SqOf(bf, 4)
                  ep == SqOf(bf, 5)
                  of == bf + df           \* file on the far side of the black pawn
-             IN  \A sk \in Sliders : \A ss \in {s \in Sq : Keep(wk, s)} :
-                   \A bk \in {0, 7} :
+             IN  \A sk \in Sliders : \A ss \in {s \in Sq : KeepLine(wk, s)} :
+                   \A bk \in (IF DENSITY = 1 THEN {0, 7} ELSE {0}) :
                      /\ Emit(<< <<wk, W(King)>>, <<wp, W(Pawn)>>, <<bp, Bl(Pawn)>>, <<ss, Bl(sk)>>,
                                 <<bk, Bl(King)>> >>, {}, ep, "ep")
-                     /\ IF of \in 0..7 /\ bk = 0
+                     /\ IF of \in 0..7 /\ bk = 0 /\ Keep(wk, ss)
                         THEN Emit(<< <<wk, W(King)>>, <<wp, W(Pawn)>>, <<bp, Bl(Pawn)>>, <<ss, Bl(sk)>>,
                                      <<bk, Bl(King)>>, <<SqOf(of, 4), W(Pawn)>> >>, {}, ep, "ep2")
                         ELSE TRUE
@@ -99,15 +102,18 @@ FamCastle ==
 (* capture off the ray.                                                    *)
 (***************************************************************************)
 Aligned(k) == QueenAttacks(k, {})
+\* t lies beyond p on the ray from k through p: the geometry of a pin
+Beyond(k, p, t) == \E d \in AllDirs : (\E i \in 1..Len(Ray(k, d)) : Ray(k, d)[i] = p)
+                                      /\ (\E j \in 1..Len(Ray(p, d)) : Ray(p, d)[j] = t)
 FamPin ==
     \A wk \in {s \in Sq : InShard(s)} :
       \A ps \in Aligned(wk) :
         \A pk \in {Pawn, Knight, Bishop, Rook, Queen} :
-          \A ts \in {t \in Aligned(wk) : Keep(ps, t)} :
+          \A ts \in {t \in Aligned(wk) : DENSITY = 1 \/ Beyond(wk, ps, t) \/ Keep(ps, t)} :
             \A tk \in Sliders :
-              \A bk \in {63, 56} :
+              \A bk \in (IF DENSITY = 1 THEN {63, 56} ELSE {IF wk = 63 \/ ps = 63 \/ ts = 63 THEN 56 ELSE 63}) :
                 /\ Emit(<< <<wk, W(King)>>, <<ps, W(pk)>>, <<ts, Bl(tk)>>, <<bk, Bl(King)>> >>, {}, -1, "pin")
-                /\ IF pk = Pawn
+                /\ IF pk = Pawn /\ Keep(wk, ts)
                    THEN \A cs \in PawnAttacks(0, ps) :
                           Emit(<< <<wk, W(King)>>, <<ps, W(pk)>>, <<ts, Bl(tk)>>, <<bk, Bl(King)>>,
                                   <<cs, Bl(Knight)>> >>, {}, -1, "pin-pawncap")
@@ -151,6 +157,37 @@ FamPromo ==
                          {}, -1, "promo")
 
 (***************************************************************************)
+(* promopin: a pawn on its 7th rank pinned along a diagonal by a bishop or *)
+(* queen standing on the promotion rank next to it (capturing the pinner   *)
+(* with promotion is legal, pushing is not), or along its file / rank by a *)
+(* rook or queen; the king on every square of the pin line behind it.      *)
+(* Small and always enumerated completely.                                 *)
+(***************************************************************************)
+FamPromoPin ==
+    \A f \in {x \in 0..7 : InShard(x)} :
+      LET ps == SqOf(f, 6) IN
+      /\ \A side \in {-1, 1} : \A pk \in {Bishop, Queen} :
+           (f + side \in 0..7) =>
+              \A k \in 1..6 :
+                 (f - side * k \in 0..7 /\ 6 - k \in 0..7) =>
+                    \A other \in {0, Knight, Rook} : \A bk \in {SqOf(7 - f, 3), 24} :
+                       Emit(<< <<SqOf(f - side * k, 6 - k), W(King)>>, <<ps, W(Pawn)>>,
+                               <<SqOf(f + side, 7), Bl(pk)>>, <<bk, Bl(King)>> >>
+                            \o (IF other # 0 /\ f - side \in 0..7 THEN << <<SqOf(f - side, 7), Bl(other)>> >> ELSE <<>>),
+                            {}, -1, "promopin")
+      /\ \A pk \in {Rook, Queen} : \A k \in 1..6 :
+           \* pinned on the file: king below the pawn, pinner on the promotion square
+           \A cap \in {0, Knight} : \A bk \in {SqOf(7 - f, 3), 24} :
+              Emit(<< <<SqOf(f, 6 - k), W(King)>>, <<ps, W(Pawn)>>, <<SqOf(f, 7), Bl(pk)>>, <<bk, Bl(King)>> >>
+                   \o (IF cap # 0 /\ f + 1 \in 0..7 THEN << <<SqOf(f + 1, 7), Bl(cap)>> >> ELSE <<>>), {}, -1, "promopin")
+      /\ \A pk \in {Rook, Queen} : \A kf \in 0..7 : \A rf \in 0..7 :
+           \* pinned on the rank
+           ((kf < f /\ rf > f) \/ (kf > f /\ rf < f)) =>
+              \A cap \in {0, Knight} :
+                 Emit(<< <<SqOf(kf, 6), W(King)>>, <<ps, W(Pawn)>>, <<SqOf(rf, 6), Bl(pk)>>, <<24, Bl(King)>> >>
+                      \o (IF cap # 0 /\ f + 1 \in 0..7 THEN << <<SqOf(f + 1, 7), Bl(cap)>> >> ELSE <<>>), {}, -1, "promopin")
+
+(***************************************************************************)
 (* kingwalk: the king next to one or two black sliders (stepping along the *)
 (* checking ray must not be offered), with a defended black piece beside   *)
 (* the king (capturing a defended piece must not be offered).              *)
@@ -181,6 +218,7 @@ Run ==
       [] FAMILY = "pin" -> FamPin
       [] FAMILY = "dblchk" -> FamDblChk
       [] FAMILY = "promo" -> FamPromo
+      [] FAMILY = "promopin" -> FamPromoPin
       [] FAMILY = "kingwalk" -> FamKingWalk
       [] FAMILY = "evade" -> FamEvade
 
